@@ -9,7 +9,7 @@ while true; do
   did=0
   for d in seeded/*/; do
     id=$(basename "$d")
-    if ! grep -q '"confirmed"' "$d/meta.json" 2>/dev/null; then
+    if ! grep -q "\"confirmed\"" "$d/meta.json" 2>/dev/null; then
       if mkdir "$d/.claim" 2>/dev/null; then
         python3 lib/seed.py confirm "$id" >> .cache/seedlogs/confirm-$W.log 2>&1
         python3 lib/seed.py check "$id" > .cache/seedlogs/$id.log 2>&1
